@@ -54,6 +54,19 @@ Theorem c02_postprocessing_refuted :
        1 10 1 false (DQ :: run_pipeline pp_table pp_pipeline true [92; 110] ++ [DQ]) = [RTok STRING [] 1 false].
 Proof. vm_compute. repeat split; reflexivity. Qed.
 
+(** Nor is a substitution with a look-ahead ("in multiline mode only a lone CR needs escaping", the alternative CR(?!LF)): it is not
+    [single_sub], it leaves the CR of CR LF raw, and the tokenizer folds a raw CR LF inside a string to one LF: the string CR LF
+    comes back as LF (round 5, computed witness). *)
+Theorem c02_lookahead_refuted :
+  is_single_sub [(PAlways, PSubLA [10] [(13, 10)])] true = false
+  /\ run_pipeline la_table [(PAlways, PSubLA [10] [(13, 10)])] true [13; 10] = [13; 10]
+  /\ tokens_flat {| esc_table := la_table; excl_single := []; excl_multi := [10]; bare_disallowed := []; operators := [];
+                    casefold := fun c => [c] |}
+       {| string_bracket := false; string_parens := true; allow_escapes := true; allow_star_comments := false;
+          preserve_comments := false; colon_operator := false; plus_operator := false |}
+       1 10 1 false (DQ :: run_pipeline la_table [(PAlways, PSubLA [10] [(13, 10)])] true [13; 10] ++ [DQ]) = [RTok STRING [10] 2 false].
+Proof. vm_compute. repeat split; reflexivity. Qed.
+
 (** The same through the reader state of the real class ([_cur_chunk], [_char_index], chunk iterator), for the text
     supplied as one string or cut into arbitrary chunks (empty ones included). *)
 Theorem c02_escape_tokenize_inverse_chunked : forall T o ml,
